@@ -190,15 +190,26 @@ func StripSlots(text string) string {
 // findByID locates the element with the given ID among the root and its children.
 func findByID(d *etree.Document, id string) *etree.Element {
 	root := d.Root()
-	if root.SelectAttrValue("ID", "") == id {
+	if PlainAttr(root, "ID") == id {
 		return root
 	}
 	for _, c := range root.ChildElements() {
-		if c.SelectAttrValue("ID", "") == id {
+		if PlainAttr(c, "ID") == id {
 			return c
 		}
 	}
 	return nil
+}
+
+// PlainAttr returns the value of the attribute key that is in no namespace (etree's SelectAttrValue
+// would also return x:key or xmlns:key).
+func PlainAttr(e *etree.Element, key string) string {
+	for _, a := range e.Attr {
+		if a.Space == "" && a.Key == key {
+			return a.Value
+		}
+	}
+	return ""
 }
 
 func detachView(d *etree.Document, el *etree.Element) (*etree.Element, error) {
